@@ -35,6 +35,7 @@ func runC16(p *load.Program, r *oblig.Report) {
 	c16NoDecoderLimits(p, r)
 	c16SnappyEncoders(p, r)
 	c16FrameLength(p, r)
+	c16ShortStreamsAreUnframed(p, r, "C16.R11 streams shorter than the xerial header are unframed blocks")
 	c16OutputFromOffset(p, r)
 	c16ReadFromCounts(p, r)
 }
